@@ -397,7 +397,24 @@ def h_fingerprint(case):
     return {'served': o, 'hits': hits}
 
 
+def h_purity_scenario(case):
+    """Run one C02 scenario in a fresh interpreter (cold modules, cold cache)."""
+    import json as _json
+    import subprocess
+    env = dict(os.environ)
+    env['PYTHONPATH'] = common.repo_pythonpath()
+    env['PYTHONDONTWRITEBYTECODE'] = '1'
+    env['PYTHONHASHSEED'] = '0'
+    env['PYTHONWARNINGS'] = 'ignore'
+    p = subprocess.run([sys.executable, '-X', 'utf8', '-m', 'harness.purity_child'], input=_json.dumps(case['scenario']).encode('utf-8'),
+                       stdout=subprocess.PIPE, stderr=subprocess.PIPE, env=env, cwd=common.VERIF, timeout=case.get('timeout', 600))
+    if p.returncode != 0:
+        return {'exception': 'ChildFailed', 'message': p.stderr.decode('utf-8', 'replace')[-400:]}
+    return {'observations': _json.loads(p.stdout.decode('utf-8'))}
+
+
 _HANDLERS = {
+    'purity_scenario': h_purity_scenario,
     'registered': h_registered,
     'history': h_history,
     'threads': h_threads,
